@@ -403,7 +403,14 @@ async def _inj_async(*, r: KT = resource("made")):
 
 
 def kcomp_params(tier):
-    return [P("first", 0, 5), P("second", 0, 5), P("node", 0, 1), P("phase", 0, 1), P("fasync", 0, 1), P("late", 0, 1)]
+    return [P("first", 0, 5), P("second", 0, 5), P("node", 0, 1), P("phase", 0, 1), P("fasync", 0, 1), P("late", 0, 1), P("falsy", 0, 1)]
+
+
+class FalsyVal(Val):
+    """A product that is falsy (think of an empty queue / inbox object)."""
+
+    def __len__(self):
+        return 0
 
 
 @guard
@@ -416,15 +423,16 @@ def kcomp_fn(a, tier):
     env = Env()
     made = []
     got = {}
+    mk = FalsyVal if pick(a["falsy"], 2) else Val
 
     def sfactory():
         made.append(1)
-        return Val(f"made#{len(made)}")
+        return mk(f"made#{len(made)}")
 
     async def afactory():
         made.append(1)
         await anyio.sleep(0)
-        return Val(f"made#{len(made)}")
+        return mk(f"made#{len(made)}")
 
     async def lookup(api):
         if api == 0:
@@ -465,7 +473,7 @@ def kcomp_fn(a, tier):
             got["after_nowait"] = ctx.get_resource_nowait(KT, "made")
 
     _, exc, _k = run(main)
-    summary = {"factory": "async" if fasync else "sync",
+    summary = {"factory": "async" if fasync else "sync", "product": "a falsy object" if mk is FalsyVal else "an ordinary object",
                "registered": "by a sibling component while the component is already waiting" if late else "in the application context before start_component",
                "lookups_inside": f"{['root', 'child'][node]}.{['prepare', 'start'][phase]}()", "first": COMP_APIS[first], "second": COMP_APIS[second]}
     if exc is not None:
